@@ -241,6 +241,20 @@ def job_field_precondition(res, n):
                       'holds' if not bad else 'inconclusive', key='field-precondition', detail=str(bad[:3])))
 
 
+def job_field_more_buckets(res, n):
+    """main after loading a start file: the loaders build a single-bunch phase space whatever the filling pattern says, so the fields are constructed with more listed buckets than the
+    phase space has bunches.  padBunchProfiles / wakePotential / updateCSR must stay inside their buffers in that world too (allocation table of the native snapshot)."""
+    bld = field_common.field_build(); mod = load_module(bld, field_common.FIELD_MODS)
+    for bk, sp, N in (((1, 0), n + 1, 3 * n), ((2, 0, 1), n, 4 * n)):
+        snap, R, pre, plans, calib = field_common.field_world(bld, n, N, sp, bk, 10)          # 10: one bunch in the phase space, cutoff off
+        for fnm, args in (('e_pad', []), ('e_wake', []), ('e_csr', [Fraction(0)])):
+            ex = Exec(mod, snap, RealDom(), {'fftwf_execute': field_common.UFFFT(plans)})
+            try: s1 = ex.run1(State(), fnm, [R['field']] + args); ok = True; res.instrs += s1.nins; why = ''
+            except MemError as e: ok = False; why = str(e)
+            res.paths += 1
+            res.obs.append(Ob('ElectricField built for buckets %s while the phase space holds one bunch (start distribution from a file), grid %d, padded length %d: %s stays inside its buffers' % (list(bk), n, N, fnm[2:]), 'holds' if ok else 'violated',
+                              key='field-more-buckets', detail=why, cex=None if ok else {'replay': 'structural', 'buckets': list(bk), 'why': why}))
+
 def job_start_grid(res, n):
     """C17 (initial distributions of the wrong size): on every route by which main obtains its first grid - built from the options, or read from a start file by one of the
     loaders - the static grid width every later buffer relies on equals the configured grid size when the fields and maps are built, or main stops before."""
@@ -349,6 +363,7 @@ def main(tier):
     jobs = [(job_kick_beyond, (8, 2, it, ax, r)) for it in (2, 4) for ax in (0, 1) for r in (0, 7)]
     jobs += [(job_impedance_add, a) for a in ((8, 8), (8, 12), (8, 5), (8, 2), (9, 4))]
     jobs += [(job_txt_loader, (2,)), (job_impedance_reader, (2,)), (job_h5_reader, ()), (job_tracks_index, (4, 1, 8, 2))]
+    jobs += [(job_field_more_buckets, (4,))]
     jobs += [(job_upper_power_of_two, ()), (job_field_precondition, (4,)), (job_start_grid, (4,)), (job_track_coords, (8, (-6, 6), (-6, 6.5))), (job_track_coords, (9, (-4, 7), (-6, 6)))]
     jobs += [(job_padded_lengths, (n, nb, pf)) for n, nb in ((4, 4), (5, 5), (4, 1), (8, 3)) for pf in (True, False)]
     jobs += [(c16.job_factory_file, (n, L, gs, w)) for n, L in ((8, 3), (8, 0), (5, 9)) for gs, w in ((0, False), (-1, True))]      # impedance built from a table: holds as many samples as it reports (what later readers index by)
